@@ -491,6 +491,12 @@ func pubsubHarness(rc *RunCtx) {
 			m.published = m.pubErr == nil
 		}
 		noise := func() {
+			if tp.Intn("hdronly", 6) == 5 {
+				// a frame that ends cleanly after its header block: no Thrift message at all
+				rc.Fault("malformed-headers-only-frame")
+				inject(EncodeFrame(map[string]string{"_opid": "1", "_cid": "x"}, nil))
+				return
+			}
 			switch tp.Intn("ops", 9) {
 			case 0:
 				rc.Fault("malformed-short-frame")
